@@ -203,6 +203,11 @@ func generate(seed uint64, family string, index int) *Scenario {
 		sc.Family = family
 		sc.Emitter = true
 		sc.EmitGoexitAt = 1 + r.Intn(6)
+		if index%2 == 0 {
+			// the caller gets out of Wait through its context, whatever became of
+			// the loop: what is left behind then shows as a leak
+			sc.CancelKind = CancelAfterWait
+		}
 		return sc
 	}
 	panic("unknown family " + family)
